@@ -143,6 +143,7 @@ def check_args(case):
             with sut("place", documented):
                 placements = place(vr, nets, machine, cons, **place_kwargs)
         stages.append("place")
+        _ordered_placers(case, vr, nets, machine, cons, documented)
         with unchanged("allocate", vr, nets, machine, cons, placements):
             with sut("allocate", documented):
                 allocations = allocate(vr, nets, machine, cons, placements)
@@ -192,6 +193,37 @@ def check_args(case):
         stages.append(type(e).__name__)
     return {"nontrivial": "route" in stages and len(case["nets"]) > 0,
             "classes": stages + ["placer=" + case["placer"]]}
+
+
+def _ordered_placers(case, vr, nets, machine, cons, documented):
+    """The placers that take orders: the caller's order lists are arguments
+    like any other, and the same call made twice gives the same answer."""
+    from rig.place_and_route.place import sequential, breadth_first
+    rng = random.Random(case["seed"])
+    order = list(vr)
+    rng.shuffle(order)
+    chips = list(machine)
+    rng.shuffle(chips)
+    for name, fn, kw in (
+            ("sequential.place", sequential.place,
+             {"vertex_order": order, "chip_order": chips}),
+            ("sequential.place", sequential.place, {"vertex_order": order}),
+            ("breadth_first.place", breadth_first.place,
+             {"chip_order": chips})):
+        results = []
+        for _ in range(2):
+            with unchanged(name, vr, nets, machine, cons, order, chips):
+                try:
+                    with sut(name, documented):
+                        results.append(sorted(
+                            (repr(v), c) for v, c in fn(
+                                vr, nets, machine, cons, **kw).items()))
+                except documented as e:
+                    results.append(type(e).__name__)
+        require(results[0] == results[1], "%s gives a different result when "
+                "the identical call is made a second time" % name,
+                {"first": repr(results[0])[:300],
+                 "second": repr(results[1])[:300]})
 
 
 # ------------------------------------------ (B) independence from history
